@@ -210,7 +210,7 @@ impl Property for C15 {
             FamId::Ed => transitivity::<ed25519_dalek::SigningKey>(&v)?,
             FamId::CombinedSecp | FamId::CombinedEd => transitivity::<enr::CombinedKey>(&v)?,
             FamId::Var | FamId::Wide => transitivity::<crate::keys::VarKey>(&v)?,
-            FamId::Tiny => transitivity::<crate::keys::TinyKey>(&v)?,
+            FamId::Tiny | FamId::Mid => transitivity::<crate::keys::TinyKey>(&v)?,
         }
         let nt = v.nontrivial;
         drop(v);
